@@ -267,6 +267,19 @@ def check(ctx):
     # every list in it is empty (shared with C06.f)
     n4 = core.adopt(ctx, c06, lambda o: o["rule"] == "C06.f", "C16.c")
     ctx.notes.append("C16.c adopts %d entry-deletion obligations (C06.f)" % n4)
+    # 'data is removed when the last trigger is removed': cleanup_reactor_data looks the entity's EntityReactors up and
+    # returns early when there is none, so the component must never be taken off a live entity (it may be empty)
+    rm_ = lib.component_removals(prog, "EntityReactors")
+    ctx.check(not rm_, "C16.c", "EntityReactors:never-removed-from-a-live-entity", rm_[0][0].loc(rm_[0][1]) if rm_ else "",
+              "no crate code removes the EntityReactors component (the local-data cleanup finds it, possibly empty)",
+              "%s removes the EntityReactors component with %s: the local-data cleanup (which returns early when the entity has no "
+              "EntityReactors) then leaves the reactor's per-entity data behind" % (lib.fkey(rm_[0][0]) if rm_ else "", rm_[0][2] if rm_ else ""))
+    # 'a run caused by an entity exposes exactly that entity's local data': every reaction command that prepared the
+    # entity-reaction tracker is handed to the runner exactly once (a skipped run leaves its prepared entry to the next
+    # run of that reactor; shared with C02.d / C03.a)
+    import c02
+    n5 = core.adopt(ctx, c02, lambda o: o["rule"] == "C02.d" and "one-runner-call-per-path" in o["key"], "C16.d")
+    ctx.floor("C16.d", n5, 1, "shared one-runner-call-per-path obligations (C02.d)")
     # the entity reported and the entity whose data is read are the same accessor result
     for nm in ("get", "get_mut"):
         try:
